@@ -1,6 +1,9 @@
 package fasthttputil
 
-import "sync"
+import (
+	"sync"
+	"sync/atomic"
+)
 
 // Self-test of the engine's race detector (run with GOSYM_RACE_ALL=1, which
 // lifts the "both sites in harness code" filter): each case is either racy or
@@ -9,10 +12,15 @@ import "sync"
 type vrBox struct{ n int }
 
 func vhRaceSelfRacy() {
-	which := vChoose("case", 4)
+	which := vChoose("case", 5)
 	b := &vrBox{}
 	done := make(chan struct{})
 	switch which {
+	case 4: // atomic in one goroutine, plain in the other
+		var w int32
+		go func() { atomic.StoreInt32(&w, 1); close(done) }()
+		w = 2
+		<-done
 	case 0: // plain write/write
 		go func() { b.n = 1; close(done) }()
 		b.n = 2
@@ -38,10 +46,16 @@ func vhRaceSelfRacy() {
 }
 
 func vhRaceSelfClean() {
-	which := vChoose("case", 6)
+	which := vChoose("case", 7)
 	b := &vrBox{}
 	done := make(chan struct{})
 	switch which {
+	case 6: // atomic on both sides
+		var w int32
+		go func() { atomic.StoreInt32(&w, 1); close(done) }()
+		atomic.AddInt32(&w, 2)
+		<-done
+		_ = atomic.LoadInt32(&w)
 	case 0: // channel hand-over
 		go func() { b.n = 1; close(done) }()
 		<-done
